@@ -84,9 +84,31 @@ let opt_bytes_answer (a : string) : bytes option =
   | ["some"; v] -> Some (unhex v)
   | _ -> failwith ("oracle answer: " ^ a)
 let hexarg (b : bytes) = match b with [] -> "." | _ -> hex b
-let gunzip b = opt_bytes_answer (ask ("gunzip " ^ hexarg b))
-let inflate_raw b = opt_bytes_answer (ask ("inflate " ^ hexarg b))
-let inflate_zlib b = opt_bytes_answer (ask ("zlib " ^ hexarg b))
+(* The stream decoders.  The Coq model of flate2/miniz_oxide (Model/Inflate.v) is evaluated on every
+   body up to INFLATE_MODEL_MAX bytes and compared with the real library, asked directly (not through
+   rhymuweb).  flate2 is a pinned dependency, not the code under verification: a disagreement is a gap in
+   the *model of the dependency*; it is counted and shown (never a verdict by itself) and the case goes on
+   with the library's answer, so that a fault in my model of flate2 can never be blamed on rhymuweb. *)
+let inflate_model_max = try int_of_string (Sys.getenv "INFLATE_MODEL_MAX") with _ -> 40000
+let inflate_modelled = ref 0
+let inflate_skipped = ref 0
+let inflate_gaps = ref 0
+let inflate_gap_log : string list ref = ref []
+let via_model (name : string) (model : bytes -> bytes option) (b : bytes) : bytes option =
+  let o = opt_bytes_answer (ask (name ^ " " ^ hexarg b)) in
+  if List.length b > inflate_model_max then (incr inflate_skipped; o)
+  else begin
+    incr inflate_modelled;
+    let m = model b in
+    if m <> o then begin
+      incr inflate_gaps;
+      if List.length !inflate_gap_log < 5 then inflate_gap_log := (name ^ ":" ^ hexarg b) :: !inflate_gap_log
+    end;
+    o
+  end
+let gunzip b = via_model "gunzip" gunzip_model b
+let inflate_raw b = via_model "inflate" inflate_raw_model b
+let inflate_zlib b = via_model "zlib" inflate_zlib_model b
 
 (* encodings: identified by the label bytes that selected them *)
 let for_label (label : bytes) : bytes option =
@@ -224,7 +246,21 @@ let run_dec (a : string array) : string * string =
   let canon = match decode_body gunzip inflate_raw inflate_zlib hs body with
     | Some (hs', b) -> Printf.sprintf "ok;b=%s;h=%s" (hex b) (show_headers ~cp:true hs')
     | None -> Printf.sprintf "err:BadContentEncoding;h=%s" (show_headers ~cp:true hs) in
-  (canon, "")
+  let diag = Printf.sprintf "im=%d;is=%d;ig=%d%s" !inflate_modelled !inflate_skipped !inflate_gaps
+      (match !inflate_gap_log with [] -> "" | l -> ";igl=" ^ String.concat "," l) in
+  inflate_modelled := 0; inflate_skipped := 0; inflate_gaps := 0; inflate_gap_log := [];
+  (canon, diag)
+
+(* model of flate2 against flate2 itself, one stream decoder, one body (tools/fuzz_inflate.py) *)
+let run_inf (a : string array) : string * string =
+  let body = unhex a.(1) in
+  let (name, model) = match a.(0) with
+    | "gunzip" -> ("gunzip", gunzip_model) | "zlib" -> ("zlib", inflate_zlib_model)
+    | _ -> ("inflate", inflate_raw_model) in
+  let o = opt_bytes_answer (ask (name ^ " " ^ hexarg body)) in
+  let m = model body in
+  let show = function None -> "none" | Some b -> "some:" ^ string_of_int (List.length b) in
+  if m = o then ("agree:" ^ show o, "") else ("gap:model=" ^ show m ^ ";lib=" ^ show o, "")
 
 let run_txt (a : string array) : string * string =
   let hs = parse_headers ~cp:true a.(0) in
@@ -253,24 +289,24 @@ let arg_opt (a : string array) i = if Array.length a > i then Some a.(i) else No
 let feed_back_req cfg g spec =
   let (_, r) = feed_trace (req_parse uri_parse cfg) req_init [] (split_for g spec) O in
   match r with
-  | Done (st, tot, _) -> Ok ("C", int_of_nat tot, st)
-  | NeedMore (st, tot, _) -> Ok ("I", int_of_nat tot, st)
-  | Rejected e -> Error ("R:" ^ err_cat e)
+  | Done (st, tot, _) -> Stdlib.Ok ("C", int_of_nat tot, st)
+  | NeedMore (st, tot, _) -> Stdlib.Ok ("I", int_of_nat tot, st)
+  | Rejected e -> Stdlib.Error ("R:" ^ err_cat e)
 let feed_back_resp g spec =
   let (_, r) = feed_trace resp_parse resp_init [] (split_for g spec) O in
   match r with
-  | Done (st, tot, _) -> Ok ("C", int_of_nat tot, st)
-  | NeedMore (st, tot, _) -> Ok ("I", int_of_nat tot, st)
-  | Rejected e -> Error ("R:" ^ err_cat e)
+  | Done (st, tot, _) -> Stdlib.Ok ("C", int_of_nat tot, st)
+  | NeedMore (st, tot, _) -> Stdlib.Ok ("I", int_of_nat tot, st)
+  | Rejected e -> Stdlib.Error ("R:" ^ err_cat e)
 
 let parse_back_req cfg (g : bytes) spec : string =
   match feed_back_req cfg g spec with
-  | Ok (tag, c, st) -> Printf.sprintf "%s%d;%s" tag c (req_fields st)
-  | Error v -> v
+  | Stdlib.Ok (tag, c, st) -> Printf.sprintf "%s%d;%s" tag c (req_fields st)
+  | Stdlib.Error v -> v
 let parse_back_resp (g : bytes) spec : string =
   match feed_back_resp g spec with
-  | Ok (tag, c, st) -> Printf.sprintf "%s%d;%s" tag c (resp_fields st)
-  | Error v -> v
+  | Stdlib.Ok (tag, c, st) -> Printf.sprintf "%s%d;%s" tag c (resp_fields st)
+  | Stdlib.Error v -> v
 
 let gen_of_state cfg (st : uri req_state) : bytes option =
   let t = match st.r_target with Some u -> u | None -> Lazy.force uri_default in
@@ -287,10 +323,10 @@ let run_genreq (a : string array) : string * string =
      | None -> ("generr:needs-fold", "")
      | Some g ->
        let back = match feed_back_req cfg g (arg_opt a 7) with
-         | Ok (tag, c, st) ->
+         | Stdlib.Ok (tag, c, st) ->
            let regen = match gen_of_state cfg st with Some g2 -> hex g2 | None -> "generr:needs-fold" in
            Printf.sprintf "%s%d;%s;regen=%s" tag c (req_fields st) regen
-         | Error v -> v in
+         | Stdlib.Error v -> v in
        (Printf.sprintf "gen=%s;orig=%s;back=%s" (hex g) (req_fields st0) back, ""))
 
 let run_genresp (a : string array) : string * string =
@@ -299,10 +335,10 @@ let run_genresp (a : string array) : string * string =
               s_headers = parse_headers ~cp:false a.(2); s_body = unhex a.(3); s_trailer = [] } in
   let g = resp_generate st0.s_code st0.s_reason st0.s_headers st0.s_body in
   let back = match feed_back_resp g (arg_opt a 4) with
-    | Ok (tag, c, st) ->
+    | Stdlib.Ok (tag, c, st) ->
       Printf.sprintf "%s%d;%s;regen=%s" tag c (resp_fields st)
         (hex (resp_generate st.s_code st.s_reason st.s_headers st.s_body))
-    | Error v -> v in
+    | Stdlib.Error v -> v in
   (Printf.sprintf "gen=%s;orig=%s;back=%s" (hex g) (resp_fields st0) back, "")
 
 let run_rtreq (a : string array) : string * string =
@@ -395,6 +431,7 @@ let run_case kind (a : string array) =
   | "rtreq" -> run_rtreq a | "rtresp" -> run_rtresp a
   | "pipereq" -> run_pipereq a | "piperesp" -> run_piperesp a
   | "reuseresp" -> run_reuse_resp a | "reusereq" -> run_reuse_req a
+  | "inf" -> run_inf a
   | "defaults" -> run_defaults ()
   | _ -> ("unknown-kind", "")
 
